@@ -228,8 +228,125 @@ def run(m):
 '''
 
 
+# ---- LoopExpression._to_iter: which items a loop is over, per kind of value ------------------
+
+def _to_iter_contract(kind):
+    @contract(LOOP + "._to_iter", prop="C13", name=f"_to_iter[{kind}]")
+    def ti(c):
+        env = mk_env(c)
+        ctx = mk_ctx(c, env)
+        self = c.obj(LOOP, "loop")
+        ss = c.st.deref(env).fields["string_sequences"].t
+        if kind == "array":
+            seq = c.seq("items")
+            obj = c.st.alloc(HList(seq=seq))
+            want = lambda r: (seq, L(seq))  # noqa: E731
+        elif kind == "string":
+            sv = c.str("text")
+            obj = sv
+            want = None
+        elif kind == "range":
+            lo, hi = c.int("start"), c.int("stop")
+            obj = VRange(lo.t, hi.t)
+            want = None
+        else:
+            v = c.any("value")
+            c.requires(z3.Not(z3.Or(U.is_ref(v.t), U.is_str(v.t))), "nil, a boolean or a number")
+            obj = v
+            want = None
+        c.call(obj, ctx, self_val=self)
+
+        def post(r):
+            itref, n = r.value.items
+            h = r.st.deref(itref) if isinstance(itref, VRef) else None
+            if isinstance(h, HIter):
+                rest = z3.SubSeq(h.seq, h.pos, L(h.seq) - h.pos)
+            elif isinstance(h, HCIter):
+                items = h.items[h.pos:]
+                rest = z3.Empty(SeqU) if not items else (z3.Unit(box(items[0])) if len(items) == 1 else z3.Concat(*[z3.Unit(box(x)) for x in items]))
+            else:
+                return z3.BoolVal(False)
+            if kind == "array":
+                return z3.And(rest == seq, n.t == L(seq))
+            if kind == "string":
+                # a string is one item (none when empty) unless string_sequences is on (then: its characters)
+                one = z3.If(L(sv.t) == 0, z3.And(rest == z3.Empty(SeqU), n.t == 0), z3.And(rest == z3.Unit(U.str(sv.t)), n.t == 1))
+                return z3.If(ss, n.t == L(sv.t), one)
+            if kind == "range":
+                i = z3.Int("i!r")
+                ln = zmax(hi.t - lo.t, z3.IntVal(0))
+                return z3.And(n.t == ln, L(rest) == ln, z3.ForAll([i], z3.Implies(z3.And(i >= 0, i < ln), rest[i] == U.int(lo.t + i))))
+            return z3.And(rest == z3.Empty(SeqU), n.t == 0)
+        c.ensures({"array": "an-array-is-iterated-item-by-item", "string": "a-string-is-a-single-item-or-its-characters", "range": "a-range-yields-start..stop-1",
+                   "scalar": "nil-booleans-and-numbers-iterate-as-empty"}[kind], post)
+        c.raises()
+        c.replay("code", code=REPLAY_FORNODE)
+
+
+for _k in ("array", "string", "range", "scalar"):
+    _to_iter_contract(_k)
+
+
+# ---- LoopExpression.evaluate: what is handed to _slice ---------------------------------------
+
+def _evaluate_wiring(sfx, limit_present, offset_kind):
+    @contract(LOOP + ".evaluate" + sfx, prop="C13", name=f"evaluate{sfx}[limit={'yes' if limit_present else 'no'},offset={offset_kind}]")
+    def ev(c):
+        EXP = "liquid.expression:Expression"
+        it_v = c.any("iterable_value")
+        lim, off = c.int("limit_value"), c.int("offset_value")
+        iterable = c.obj(EXP, "iterable_expr", __value__=it_v, token=NONE)
+        limit = c.obj(EXP, "limit_expr", __value__=lim, token=NONE) if limit_present else NONE
+        if offset_kind == "expression":
+            offset = c.obj(EXP, "offset_expr", __value__=off, token=NONE)
+        elif offset_kind == "continue":
+            offset = c.obj("liquid.builtin.expressions.primitive:StringLiteral", "offset_literal", value=const("continue"), token=NONE)
+        else:
+            offset = NONE
+        evx = lambda eng, st, a, k: [(st, st.deref(a[0]).fields["__value__"])]  # noqa: E731
+        c.summary(EXP + ".evaluate", evx)
+        c.summary(EXP + ".evaluate_async", evx)
+        c.summary("liquid.builtin.expressions.primitive:StringLiteral.evaluate", lambda eng, st, a, k: [(st, st.deref(a[0]).fields["value"])])
+        it0 = c.st.alloc(HIter(c.seq("visited"), z3.IntVal(0)))
+        n0 = c.int("n_items")
+
+        def to_iter(eng, st, a, k):
+            st.log.append(("to_iter", box(a[1])))
+            return [(st, VTuple((it0, n0)))]
+
+        def slc(eng, st, a, k):
+            st.log.append(("slice", a[1], box(a[2]), box(k.get("limit", NONE)), box(k.get("offset", NONE))))
+            return [(st, VTuple((a[1], a[2])))]
+        c.summary(LOOP + "._to_iter", to_iter)
+        c.summary(LOOP + "._slice", slc)
+        c.summary("liquid.limits:to_int", lambda eng, st, a, k: [(st, a[0])])   # the values are ints already
+        ctx = mk_ctx(c)
+        self = c.obj(LOOP, "loop", iterable=iterable, limit=limit, offset=offset, identifier=c.str("ident"), reversed=c.bool("rev"), cols=NONE)
+        c.call(ctx, self_val=self)
+
+        def post(r):
+            ti = [e for e in r.st.log if e[0] == "to_iter"]
+            sl = [e for e in r.st.log if e[0] == "slice"]
+            if len(ti) != 1 or len(sl) != 1 or sl[0][1] != it0:
+                return z3.BoolVal(False)
+            want_l = U.int(lim.t) if limit_present else U.none
+            want_o = U.int(off.t) if offset_kind == "expression" else (U.str(z3.StringVal("continue")) if offset_kind == "continue" else U.none)
+            return z3.And(ti[0][1] == it_v.t, sl[0][2] == U.int(n0.t), sl[0][3] == want_l, sl[0][4] == want_o)
+        c.ensures("the-iterable's-items-with-its-limit-and-offset-are-what-is-sliced", post)
+        c.raises()
+        c.assume_note("limit/offset expressions evaluate to ints (their conversion errors are C02's); _to_iter and _slice have their own contracts above")
+        c.replay("code", code=REPLAY_SLICE)
+
+
+for _sfx in ("", "_async"):
+    for _lp in (False, True):
+        for _ok in ("none", "expression", "continue"):
+            _evaluate_wiring(_sfx, _lp, _ok)
+
+
 bounded("C13", "bounded/C13.py")
-not_covered("C13", "cols:0 / non-numeric cols (no documented reference behaviour; C02 only requires a Liquid error)", "ForNode/TablerowNode.render_to_output and LoopExpression.evaluate are covered by the bounded template-level check (sync and async), not by their own symbolic contract")
+not_covered("C13", "cols:0 / non-numeric cols (no documented reference behaviour; C02 only requires a Liquid error)", "TablerowNode.render_to_output (HTML row/cell structure) is covered by the bounded template-level check; its TableRow helper is proved",
+            "_to_iter over a hash (items view of an arbitrary Mapping) is covered by the bounded check")
 
 
 # ---- ForNode: the else block is rendered exactly when no item is visited; every block render
